@@ -263,7 +263,7 @@ def generate_jobs(unit, tier):
     bodies = [f['cname'] for f in FUNCS]
     nmax = 3 if tier == 'thorough' else 2
     def J(op, nt, ns, text, extra=''):
-        jobs.append(dict(id='b_%s_t%d_s%d' % (op, nt, ns), kind='bounded', mode='bounded', entry='h', bodies=bodies, harness=text, unwind=max(nt, ns) + 4, timeout=900,
+        jobs.append(dict(id='b_%s_t%d_s%d' % (op, nt, ns), kind='bounded', mode='bounded', entry='h', bodies=bodies, harness=text, unwind=max(max(nt, ns) + 4, nt + ns + 2), timeout=900,
                          defs='#define NT %d\n#define NS %d\n#define VEC_BCAP %d\n#define STR_BCAP 3\n%s' % (nt, ns, nt + ns + 2, extra),
                          bound='target list of %d and source of %d parameters, names in {a,b,c,d} (unique inside a list), values symbolic doubles in [-100,100], each target with or without a symbolic interval constraint, zero precision' % (nt, ns),
                          doc=op))
